@@ -169,3 +169,33 @@ def single_def_stmt(T, operand, bb, idx):
     st = dict(st)
     st["_at"] = (b, i)
     return st
+
+
+def bool_switches(P, body, match):
+    """switches on a boolean whose (possibly negated) condition term satisfies match(term):
+    yields (bb, cond_term, true_edges, false_edges) where *_edges are CFG edges taken when the un-negated condition
+    is true / false"""
+    T = terms(P, body)
+    cfg = cfg_of(body)
+    from .prov import norm
+    for bb, tm in body.terms():
+        if tm["k"] != "switch":
+            continue
+        d = norm(T.at_term(tm["discr"], bb))
+        neg = False
+        while d[0] == "un" and d[1] == "Not":
+            neg = not neg
+            d = d[2]
+        if not match(d):
+            continue
+        te, fe = [], []
+        for v, tgt in cfg.switch_edges(bb):
+            truth = (v != 0)
+            if neg:
+                truth = not truth
+            (te if truth else fe).append((bb, tgt))
+        yield bb, d, te, fe
+
+
+def edge_dominated(cfg, edges, bb):
+    return any(cfg.edge_dominates(e, bb) for e in edges)
